@@ -36,6 +36,7 @@ fn same(t: &VTree, v: &Value) -> bool {
 }
 
 pub fn run(c: &Value) -> CaseResult {
+    if c["case"] == "vtree_ctor" { return run_ctor(c); }
     let shape = &c["vtree"];
     let mut info = vec![]; let mut next = 0;
     number(shape, &mut next, &mut info);
@@ -97,8 +98,28 @@ fn perms(n: usize) -> Vec<Vec<u64>> {
     out
 }
 
+/// the order-based constructors: the leaves of the vtree, left to right, are the order they were given (every variable exactly once)
+fn run_ctor(c: &Value) -> CaseResult {
+    let order: Vec<VarLabel> = c["order"].as_array().map(|a| a.iter().map(|v| VarLabel::new(v.as_u64().unwrap_or(0))).collect()).unwrap_or_default();
+    fn leaves(t: &VTree, out: &mut Vec<u64>) { match t { BTree::Leaf(v) => out.push(v.value()), BTree::Node(_, l, r) => { leaves(l, out); leaves(r, out); } } }
+    let want: Vec<u64> = order.iter().map(|v| v.value()).collect();
+    let mut builds: Vec<(String, VTree)> = vec![("right_linear".into(), VTree::right_linear(&order)), ("left_linear".into(), VTree::left_linear(&order))];
+    let mut s = 0usize;
+    while (1usize << s) <= order.len() { builds.push((format!("even_split({s})"), VTree::even_split(&order, s))); s += 1; }
+    for (name, t) in builds.iter() {
+        let mut got = vec![]; leaves(t, &mut got);
+        if got != want { return Err(format!("VTree::{name} on the order {:?} has the leaves {:?}", want, got)); }
+    }
+    Ok(())
+}
+
 pub fn candidates(seed: u64) -> Vec<Value> {
     let mut out = vec![];
+    // order-based constructors: every permutation of 0..n for n <= 4, sparse label sets, some longer shuffled orders
+    for n in 1..=4 { for p in perms(n) { out.push(json!({"case": "vtree_ctor", "order": p})); } }
+    for p in perms(3) { let q: Vec<u64> = p.iter().map(|x| 3 + 2 * x).collect(); out.push(json!({"case": "vtree_ctor", "order": q})); }
+    out.push(json!({"case": "vtree_ctor", "order": [11, 3, 5, 7, 9, 70, 64, 0, 2]}));
+    out.push(json!({"case": "vtree_ctor", "order": [5, 4, 3, 2, 1, 0, 6, 7, 9, 8, 15, 14, 13, 12, 11, 10, 16]}));
     // every shape x every labelling for 1..4 leaves; every shape with 3 seeded labellings for 5 and 6 leaves
     for n in 1..=4 { for p in perms(n) { for s in shapes(&p) { out.push(json!({"case": "vtree_mgr", "vtree": s})); } } }
     let mut s = seed.wrapping_add(777);
